@@ -5,14 +5,27 @@ KNOWN = "SyncBlockHeader:unsound-accept:duplicate-bookkeeper"
 
 
 def run_bin(ctx, binary, N, rows, tag):
-    res = sc.go_rows(ctx, binary, "TestVerifSigHeaderSync", {"n": N, "rows": rows}, tag)
+    obs = run_batch(ctx, binary, [(N, rows)], tag)
+    return obs[0] if obs else None
+
+
+def run_batch(ctx, binary, worlds, tag):
+    """worlds: [(peer-set size, rows)], one stored peer set each, one harness call -> [observations per world]"""
+    res = sc.go_rows(ctx, binary, "TestVerifSigHeaderSync", {"batch": [{"n": n, "rows": rows} for n, rows in worlds]}, tag)
     if res is None:
         return None
-    obs = [o for o in res[1:] if "i" in o]
-    if len(obs) != len(rows):
-        ctx.infra("header_sync harness returned %d/%d rows" % (len(obs), len(rows)))
-        return None
-    return obs
+    out = []
+    for wi, (n, rows) in enumerate(worlds):
+        m = [o for o in res if o.get("meta") and o.get("w") == wi]
+        obs = [o for o in res if "i" in o and o.get("w") == wi]
+        if len(m) != 1 or m[0].get("storedPeers") != n:
+            ctx.infra("header_sync harness (%s): the contract has not stored a peer set of %d peers (%s)" % (tag, n, m[:1]))
+            return None
+        if len(obs) != len(rows):
+            ctx.infra("header_sync harness (%s, %d peers) returned %d/%d rows" % (tag, n, len(obs), len(rows)))
+            return None
+        out.append(obs)
+    return out
 
 
 QPADS = ("garbage", "stale", "repeat", "unlisted", "outsider")
@@ -22,28 +35,23 @@ KEY_SHORT = "SyncBlockHeader:unsound-accept:verifies-fewer-signatures-than-two-t
 def probe(ctx, binary, Ns):
     """Thresholds of the tree for every peer-set size in Ns, one harness call: headers listing the first L peers
     (L = 0..N) with valid signatures of the first j of them (j = 0..L) and garbage in the remaining L-j places.
-    -> {N: (ml, svtab)}: ml = shortest list accepted when every listed peer signed, svtab[L] = how many leading
+    -> {N: (ml, sv)}: ml = shortest list accepted when every listed peer signed, sv[L] = how many leading
     signatures must be valid for a list of length L (as many as the contract really verifies)."""
-    batch, meta = [], []
+    worlds, meta = [], []
     for N in Ns:
         full = list(range(1, N + 1))
         lj = [(L, j) for L in range(0, N + 1) for j in range(0, L + 1)]
-        batch.append({"n": N, "rows": [{"bk": full[:L], "sigs": [sc.G(k) for k in full[:j]] + [sc.X] * (L - j)} for L, j in lj]})
+        worlds.append((N, [{"bk": full[:L], "sigs": [sc.G(k) for k in full[:j]] + [sc.X] * (L - j)} for L, j in lj]))
         meta.append(lj)
-    res = sc.go_rows(ctx, binary, "TestVerifSigHeaderSync", {"batch": batch}, "c33-probe")
+    res = run_batch(ctx, binary, worlds, "c33-probe")
     if res is None:
         return {}
     out = {}
-    for wi, N in enumerate(Ns):
-        m = [o for o in res if o.get("meta") and o.get("w") == wi]
-        obs = [o for o in res if "i" in o and o.get("w") == wi]
-        if len(m) != 1 or m[0].get("storedPeers") != N:
-            ctx.infra("probe N=%d: the contract has not stored a peer set of %d peers (%s)" % (N, N, m[:1]))
+    for N, lj, obs in zip(Ns, meta, res):
+        if any(o.get("panic") for o in obs):
+            ctx.infra("probe N=%d: panics %s" % (N, [o["panic"] for o in obs if o.get("panic")][:2]))
             continue
-        if len(obs) != len(meta[wi]) or any(o.get("panic") for o in obs):
-            ctx.infra("probe N=%d: %d/%d observations, panics %s" % (N, len(obs), len(meta[wi]), [o["panic"] for o in obs if o.get("panic")][:2]))
-            continue
-        acc = {lj: bool(o["acc"]) for lj, o in zip(meta[wi], obs)}
+        acc = {x: bool(o["acc"]) for x, o in zip(lj, obs)}
         full_ok = [L for L in range(0, N + 1) if acc[(L, L)]]
         if not full_ok:
             ctx.infra("probe N=%d: the real code accepted none of the fully signed probe headers" % N)
@@ -52,37 +60,33 @@ def probe(ctx, binary, Ns):
         if full_ok != list(range(ml, N + 1)):
             ctx.infra("probe N=%d: acceptance not monotone in the list length (%s)" % (N, full_ok))
             continue
-        svtab, bad = {}, None
+        sv, bad = {}, None
         for L in range(0, N + 1):
             js = [j for j in range(0, L + 1) if acc[(L, j)]]
             if js != (list(range(js[0], L + 1)) if js and L >= ml else []):
                 bad = (L, js)
                 break
             if js:
-                svtab[L] = js[0]
+                sv[L] = js[0]
         if bad:
             ctx.infra("probe N=%d: acceptance not monotone in the number of valid signatures (list length %d: %s)" % ((N,) + bad))
             continue
-        out[N] = (ml, svtab)
+        out[N] = (ml, sv)
     return out
 
 
 def confs_for(ctx):
-    """(N, max bookkeepers, max signatures, max outsiders, slack, align, quorum mode) -- see SigHeader.tla.  The general
-    enumeration (all lists / all signature symbols) runs for 4 and 7 (10) peers; the quorum mode (number of valid
-    signatures independent of the number listed) for EVERY peer-set size, all residues mod 3."""
+    """(peer-set sizes, max bookkeepers, max signatures, max outsiders, slack, align, quorum mode) -- see SigHeader.tla.
+    The general enumeration (all lists / all signature symbols) runs for 4 and 7 (thorough: 5, 10) stored peers; the quorum
+    mode (number of valid signatures independent of the number listed) in ONE run for EVERY peer-set size, all residues mod 3."""
     if not ctx.thorough:
-        general = [(4, 3, 3, 1, 1, 0), (7, 5, 5, 0, 0, 3)]
-        qn = range(1, 11)
-    else:
-        general = [(4, 4, 4, 1, 0, 0), (4, 5, 5, 1, 0, 3), (5, 4, 4, 0, 1, 0), (7, 6, 6, 0, 0, 3), (7, 5, 5, 1, 0, 3), (10, 7, 7, 0, 0, 2)]
-        qn = range(1, 14)
-    confs, seen = [], set()
-    for g in general:
-        confs.append(g + (g[0] in qn and g[0] not in seen,))
-        seen.add(g[0])
-    confs += [(N, 0, 0, 0, 0, 0, True) for N in qn if N not in seen]
-    return sorted(confs, key=lambda c: c[0])
+        return [([4], 3, 3, 1, 1, 0, False), ([7], 5, 5, 0, 0, 3, False), (list(range(1, 11)), 0, 0, 0, 0, 0, True)]
+    return [([4], 4, 4, 1, 0, 0, False), ([4], 5, 5, 1, 0, 3, False), ([5], 4, 4, 0, 1, 0, False), ([7], 6, 6, 0, 0, 3, False),
+            ([7], 5, 5, 1, 0, 3, False), ([10], 7, 7, 0, 0, 2, False), (list(range(1, 14)), 0, 0, 0, 0, 0, True)]
+
+
+def two_thirds(n):
+    return -(-2 * n // 3)
 
 
 def run(ctx):
@@ -114,87 +118,104 @@ def run(ctx):
         eth.start()
         # 1. probe the thresholds of every peer-set size, 2. all TLC runs side by side, 3. execute the rows
         plan = []
-        probed = probe(ctx, binary, sorted({c[0] for c in confs}))
-        for ci, (N, maxbk, maxsigs, outs, slack, align, quorum) in enumerate(confs):
-            if N not in probed:
-                continue
-            ml, svtab = probed[N]
-            need = -(-2 * N // 3)
-            short = {L: m for L, m in svtab.items() if m != L}
+        probed = probe(ctx, binary, sorted({n for c in confs for n in c[0]}))
+        for N, (ml, sv) in sorted(probed.items()):
+            short = {L: m for L, m in sv.items() if m != L}
             ctx.log("N=%d: the tree wants a bookkeeper list of length >= %d and verifies %s (property: >= %d distinct valid peer signatures)"
-                    % (N, ml, "every listed bookkeeper's signature" if not short else "only {list length: signatures} %s" % short, need))
-            name = "SigHeader_S%d_%d.cfg" % (N, ci)
+                    % (N, ml, "every listed bookkeeper's signature" if not short else "only {list length: signatures} %s" % short, two_thirds(N)))
+        for ci, (sizes, maxbk, maxsigs, outs, slack, align, quorum) in enumerate(confs):
+            sizes = [n for n in sizes if n in probed]
+            if not sizes:
+                continue
+            mltab = {n: probed[n][0] for n in sizes}
+            svtab = {(n, L): m for n in sizes for L, m in probed[n][1].items()}
+            name = "SigHeader_S%d_%d.cfg" % (max(sizes), ci)
             # MaskByPosition OFF (repaired by 900ecb87).  With the probed thresholds at (or above) two thirds the
             # property SyncSound itself is the invariant of the model of the tree; a lower probed threshold is a
             # candidate that the rows then confirm on the real code
-            sound = ml >= need and all(m >= need for m in svtab.values())
-            ccfg = sc.hdr_cfg(N, 0, 0, 0, ml, False, "sync", maxbk, maxsigs, "SyncSound SyncQuorum" if sound else "SyncSoundUpTo", True,
-                              outs, slack, align, svtab=svtab, qpads=QPADS if quorum else (),
-                              qmin=0 if ctx.thorough else max(0, ml - 1), qmax=N, qshort=N if ctx.thorough else 1)
-            plan.append((ci, N, maxbk, maxsigs, outs, slack, align, ml, need, name, ccfg, svtab, quorum))
-        tlc = sc.parallel(*[(lambda pl=pl: sc.run_tlc_rows(ctx, "SigHeader_MC", pl[9], files={pl[9]: pl[10]}, workers=max(2, sc.vf.NCPU // max(1, len(plan)))))
+            sound = all(mltab[n] >= two_thirds(n) for n in sizes) and all(m >= two_thirds(n) for (n, L), m in svtab.items())
+            big = max(sizes)
+            ccfg = sc.hdr_cfg(big, 0, 0, 0, 0, False, "sync", maxbk, maxsigs, "SyncSound SyncQuorum" if sound else "SyncSoundUpTo", True,
+                              outs, slack, align, sizes=sizes, mltab=mltab, svtab=svtab, qpads=QPADS if quorum else (),
+                              qbelow=big if ctx.thorough else 1, qshort=big if ctx.thorough else 1)
+            plan.append((ci, sizes, maxbk, maxsigs, outs, slack, align, quorum, name, ccfg))
+        tlc = sc.parallel(*[(lambda pl=pl: sc.run_tlc_rows(ctx, "SigHeader_MC", pl[8], files={pl[8]: pl[9]}, workers=max(2, sc.vf.NCPU // max(1, len(plan)))))
                             for pl in plan]) if plan else []
         todo = []
         for pl, (r, rows) in zip(plan, tlc):
-            N, quorum, need = pl[1], pl[12], pl[8]
+            ci, sizes, quorum = pl[0], pl[1], pl[7]
             if not r:
                 continue
             H = sc.hdr_rows(rows)
-            if not any(h["acc"] for h in H) or not any(not h["acc"] for h in H):
-                ctx.infra("vacuous model run N=%d" % N)
+            byn = {n: [h for h in H if h["n"] == n] for n in sizes}
+            if sum(len(v) for v in byn.values()) != len(H):
+                ctx.infra("rows of %s carry peer-set sizes outside %s" % (pl[8], sizes))
                 continue
-            # the quorum mode must have produced the class it is there for: enough bookkeepers LISTED, one valid signature short
-            if quorum and N >= 2 and not any(len(h["bk"]) >= need and not h["ok"] and len({s[1] for s in h["sigs"] if s[0] == "g" and s[1] in h["bk"]}) == need - 1
-                                             and len(h["sigs"]) >= len(h["bk"]) for h in H):
-                ctx.infra("vacuous quorum mode N=%d: no header listing two thirds with one valid signature less" % N)
+            vac = [n for n in sizes if not any(h["acc"] for h in byn[n]) or not any(not h["acc"] for h in byn[n])]
+            if vac:
+                ctx.infra("vacuous model run for %s peers (%s)" % (vac, pl[8]))
                 continue
-            todo.append((pl, H))
-        allobs = sc.parallel(*[(lambda pl=pl, H=H: run_bin(ctx, binary, pl[1], [{"bk": h["bk"], "sigs": h["sigs"]} for h in H], "c33-rows-%d-%d" % (pl[1], pl[0])))
-                               for pl, H in todo]) if todo else []
-        for (pl, H), obs in zip(todo, allobs):
-            ci, N, maxbk, maxsigs, outs, slack, align, ml, need, name, ccfg, svtab, quorum = pl
-            c = sum(1 for h in H if h["acc"] and not h["ok"])
-            cand += c
-            if obs is None:
+            # the quorum mode must have produced the class it is there for: enough bookkeepers LISTED (and as many
+            # signatures), one VALID signature of a listed peer less than two thirds
+            vac = [n for n in sizes if quorum and n >= 2 and not any(
+                len(h["bk"]) >= two_thirds(n) and len(h["sigs"]) >= len(h["bk"]) and not h["ok"]
+                and len({g[1] for g in h["sigs"] if g[0] == "g" and g[1] in h["bk"]}) == two_thirds(n) - 1 for h in byn[n])]
+            if vac:
+                ctx.infra("vacuous quorum mode for %s peers: no header listing two thirds with one valid signature less" % vac)
                 continue
-            drift = []
-            acc = uns = 0
-            for h, o in zip(H, obs):
-                if o.get("panic"):
-                    ctx.infra("SyncBlockHeader panicked on %s: %s" % (sc.hdr_str(h), o["panic"]))
-                    continue
-                if o["acc"] != o["direct"] or o["acc"] != o["stored"]:
-                    ctx.infra("SyncBlockHeader / VerifyHeader / stored header disagree on %s: %s" % (sc.hdr_str(h), o))
-                    continue
-                acc += o["acc"]
-                if o["acc"] and not h["ok"]:
-                    uns += 1
-                    nvalid = len({s[1] for s in h["sigs"] if s[0] == "g" and 1 <= s[1] <= N})
-                    if any(k > N for k in h["bk"]):
-                        key = "SyncBlockHeader:unsound-accept:non-peer-bookkeeper"
-                    elif 3 * len(h["bk"]) < 2 * N:
-                        key = "SyncBlockHeader:unsound-accept:list-shorter-than-two-thirds"
-                    elif h["acc"] and 3 * svtab.get(len(h["bk"]), len(h["bk"])) < 2 * N:
-                        key = KEY_SHORT      # enough bookkeepers listed, but fewer of their signatures verified than two thirds of the peers
-                    elif h["dup"]:
-                        key = KNOWN          # fixed by 900ecb87: a long enough list of peers with one peer counted several times
-                    elif h["acc"]:
-                        key = "SyncBlockHeader:unsound-accept:list-length-threshold-below-two-thirds"
-                    else:
-                        key = "SyncBlockHeader:unsound-accept:other"
-                    ctx.violation(key, {"peers": N, "header": sc.hdr_str(h), "distinct_valid_peer_signatures": nvalid, "required": need},
-                                  {"N": N, "bk": h["bk"], "sigs": h["sigs"]})
-                elif o["acc"] != h["acc"]:
-                    drift.append((sc.hdr_str(h), "real=%s model=%s" % (o["acc"], h["acc"])))
-            if drift:
-                ctx.infra("MODEL-DRIFT N=%d: %d/%d rows, e.g. %s" % (N, len(drift), len(H), drift[:3]))
-            nexec += len(obs); nacc += acc; nunsound += uns
-            per["N=%d/%d" % (N, ci)] = {"rows": len(obs), "max_outsiders": outs, "sig_slack": slack, "align_opts": align, "accepted": acc, "unsound_accepts": uns, "tlc_candidates": c, "min_list_len": ml,
-                               "max_bk": maxbk, "max_sigs": maxsigs, "quorum_mode": quorum, "two_thirds": need,
-                               "sigs_verified_by_list_len": {str(L): m for L, m in sorted(svtab.items())}}
-            ctx.log("N=%d: %d rows on SyncBlockHeader+VerifyHeader, %d accepted, %d against the property (TLC candidates %d)" % (N, len(obs), acc, uns, c))
-            if maxbk or N in (5, 8):
-                ctx.samples.append({"peers": N, "header": sc.hdr_str(H[len(H) // 2]), "model_accepts": H[len(H) // 2]["acc"], "property_allows": H[len(H) // 2]["ok"]})
+            todo.append((pl, byn))
+        allobs = sc.parallel(*[(lambda pl=pl, byn=byn: run_batch(ctx, binary, [(n, [{"bk": h["bk"], "sigs": h["sigs"]} for h in byn[n]]) for n in pl[1]],
+                                                                  "c33-rows-%d" % pl[0])) for pl, byn in todo]) if todo else []
+        for (pl, byn), wobs in zip(todo, allobs):
+            ci, sizes, maxbk, maxsigs, outs, slack, align, quorum, name, ccfg = pl
+            if wobs is None:
+                continue
+            for N, obs in zip(sizes, wobs):
+                H = byn[N]
+                ml, sv = probed[N]
+                need = two_thirds(N)
+                c = sum(1 for h in H if h["acc"] and not h["ok"])
+                cand += c
+                drift = []
+                acc = uns = 0
+                for h, o in zip(H, obs):
+                    if o.get("panic"):
+                        ctx.infra("SyncBlockHeader panicked on %s: %s" % (sc.hdr_str(h), o["panic"]))
+                        continue
+                    if o["acc"] != o["direct"] or o["acc"] != o["stored"]:
+                        ctx.infra("SyncBlockHeader / VerifyHeader / stored header disagree on %s: %s" % (sc.hdr_str(h), o))
+                        continue
+                    acc += o["acc"]
+                    if o["acc"] and not h["ok"]:
+                        uns += 1
+                        nvalid = len({g[1] for g in h["sigs"] if g[0] == "g" and 1 <= g[1] <= N})
+                        if any(k > N for k in h["bk"]):
+                            key = "SyncBlockHeader:unsound-accept:non-peer-bookkeeper"
+                        elif 3 * len(h["bk"]) < 2 * N:
+                            key = "SyncBlockHeader:unsound-accept:list-shorter-than-two-thirds"
+                        elif h["acc"] and 3 * sv.get(len(h["bk"]), len(h["bk"])) < 2 * N:
+                            key = KEY_SHORT      # enough bookkeepers listed, but fewer of their signatures verified than two thirds of the peers
+                        elif h["dup"]:
+                            key = KNOWN          # fixed by 900ecb87: a long enough list of peers with one peer counted several times
+                        elif h["acc"]:
+                            key = "SyncBlockHeader:unsound-accept:list-length-threshold-below-two-thirds"
+                        else:
+                            key = "SyncBlockHeader:unsound-accept:other"
+                        ctx.violation(key, {"peers": N, "header": sc.hdr_str(h), "distinct_valid_peer_signatures": nvalid, "required": need},
+                                      {"N": N, "bk": h["bk"], "sigs": h["sigs"]})
+                    elif o["acc"] != h["acc"]:
+                        drift.append((sc.hdr_str(h), "real=%s model=%s" % (o["acc"], h["acc"])))
+                if drift:
+                    ctx.infra("MODEL-DRIFT N=%d: %d/%d rows, e.g. %s" % (N, len(drift), len(H), drift[:3]))
+                nexec += len(obs); nacc += acc; nunsound += uns
+                per["N=%d/%d%s" % (N, ci, "/quorum" if quorum else "")] = {
+                    "rows": len(obs), "max_outsiders": outs, "sig_slack": slack, "align_opts": align, "accepted": acc, "unsound_accepts": uns,
+                    "tlc_candidates": c, "min_list_len": ml, "max_bk": maxbk, "max_sigs": maxsigs, "quorum_mode": quorum, "two_thirds": need,
+                    "sigs_verified_by_list_len": {str(L): m for L, m in sorted(sv.items())}}
+                ctx.log("N=%d%s: %d rows on SyncBlockHeader+VerifyHeader, %d accepted, %d against the property (TLC candidates %d)"
+                        % (N, " (quorum mode)" if quorum else "", len(obs), acc, uns, c))
+                if not quorum or N in (5, 8):
+                    ctx.samples.append({"peers": N, "header": sc.hdr_str(H[len(H) // 2]), "model_accepts": H[len(H) // 2]["acc"], "property_allows": H[len(H) // 2]["ok"]})
     # stateful part: which stored peer set governs a header when key headers arrive in any order (spec/SigEpoch.tla)
     if binary:
         eth.join()
